@@ -250,6 +250,9 @@ def check_guards(ck, repo: Repo, directions=DIRECTIONS):
         if isinstance(r.value, ast.Constant) and r.value.value is False:
             continue
         ok = has_condition(iv, r, f"isinstance({p}, bool)", "F")
+        if not ok and isinstance(r.value, ast.BoolOp) and isinstance(r.value.op, ast.And):
+            # the same guard as the first operand of a conjunction: `return not isinstance(v, bool) and (...)`
+            ok = unparse(r.value.values[0]).replace(" ", "") == f"notisinstance({p},bool)"
         ck.ob("is_integer: bool is rejected before any numeric acceptance", ok, isi, r, construct="is_integer:bool-first")
         txt = unparse(r.value)
         ck.ob("is_integer: accepts ints, and finite floats equal to their floor",
